@@ -10,6 +10,8 @@
 Everything works on deep copies; the Repo's own trees are never modified.
 """
 import ast
+
+from .astcopy import clone
 import copy
 
 from .loader import ClassInfo, FuncInfo, own_nodes, set_parents
@@ -54,7 +56,7 @@ class _Canon(ast.NodeTransformer):
         if len(node.targets) == 1 and isinstance(node.value, ast.IfExp) and isinstance(node.targets[0], (ast.Name, ast.Attribute)) \
                 and (isinstance(node.targets[0], ast.Name) or isinstance(node.targets[0].value, ast.Name)):
             e = node.value
-            mk = lambda x: ast.copy_location(ast.Assign(targets=[copy.deepcopy(node.targets[0])], value=x), node)
+            mk = lambda x: ast.copy_location(ast.Assign(targets=[clone(node.targets[0])], value=x), node)
             return ast.copy_location(ast.If(test=e.test, body=[mk(e.body)], orelse=[mk(e.orelse)]), node)
         if len(node.targets) == 1 and isinstance(node.targets[0], ast.Name) and isinstance(node.value, ast.BinOp) \
                 and isinstance(node.value.left, ast.Name) and node.value.left.id == node.targets[0].id:
@@ -112,7 +114,7 @@ class _Rename(ast.NodeTransformer):
             m = self.mapping[node.id]
             if isinstance(m, ast.AST):
                 if isinstance(node.ctx, ast.Load):
-                    return copy.deepcopy(m)
+                    return clone(m)
                 return node
             return ast.copy_location(ast.Name(id=m, ctx=node.ctx), node)
         return node
@@ -183,7 +185,7 @@ def _tailify(stmts, target):
                     return out
                 # returns somewhere inside, but neither arm always returns: the rest of the block follows both arms
                 b = _tailify(st.body + rest, target)
-                o = _tailify(copy.deepcopy(list(st.orelse) + rest), target)
+                o = _tailify(clone(list(st.orelse) + rest), target)
                 if b is None or o is None:
                     return None
                 out.append(ast.copy_location(ast.If(test=st.test, body=b, orelse=o), st))
@@ -301,7 +303,7 @@ class Inliner:
             return None
         self.counter += 1
         suffix = '__i%d' % self.counter
-        body = copy.deepcopy(h.node.body)
+        body = clone(h.node.body)
         # drop docstring
         if body and isinstance(body[0], ast.Expr) and isinstance(body[0].value, ast.Constant) and isinstance(body[0].value.value, str):
             body = body[1:]
@@ -312,9 +314,9 @@ class Inliner:
             # simple arguments are substituted directly when the parameter is never rebound in the helper
             rebound = p in _bound_names(h.node)
             if isinstance(arg, (ast.Name, ast.Constant, ast.Attribute)) and not rebound:
-                mapping[p] = copy.deepcopy(arg)
+                mapping[p] = clone(arg)
             else:
-                pre.append(ast.Assign(targets=[ast.Name(id=p + suffix, ctx=ast.Store())], value=copy.deepcopy(arg)))
+                pre.append(ast.Assign(targets=[ast.Name(id=p + suffix, ctx=ast.Store())], value=clone(arg)))
         if is_gen:
             if any(isinstance(n, ast.Return) for st in body for n in ast.walk(st)):
                 return None
@@ -426,10 +428,10 @@ class Inliner:
                     tmp = self._last_target(rep)
                     if field == 'test':
                         new_st = copy.copy(st)
-                        new_st.test = copy.deepcopy(st.test)
+                        new_st.test = clone(st.test)
                         holder = new_st.test
                     else:
-                        new_st = copy.deepcopy(st)
+                        new_st = clone(st)
                         holder = None
                     # replace the call (same position, same dump) in the copy
 
@@ -479,7 +481,7 @@ def normalized(ctx, fi, depth=2, do_canon=True, keep=()):
     if isinstance(fi.node, ast.Lambda):
         cache[key] = fi
         return fi
-    node = copy.deepcopy(fi.node)
+    node = clone(fi.node)
     inl = Inliner(ctx)
     inl.keep = set(keep)
     # resolution of calls inside the copy needs parent links and function tables: work on the original for resolution by
@@ -532,10 +534,10 @@ def _expr_body(h):
     for st in body[:-1]:
         if isinstance(st, ast.Assign) and len(st.targets) == 1 and isinstance(st.targets[0], ast.Name) \
                 and st.targets[0].id not in env and st.targets[0].id not in [a.arg for a in h.node.args.args]:
-            env[st.targets[0].id] = _Rename({k: v for k, v in env.items()}).visit(copy.deepcopy(st.value))
+            env[st.targets[0].id] = _Rename({k: v for k, v in env.items()}).visit(clone(st.value))
         else:
             return None
-    return _Rename(env).visit(copy.deepcopy(body[-1].value))
+    return _Rename(env).visit(clone(body[-1].value))
 
 
 def _inline_expression_helpers(ctx, inl, node, fi, orig_calls):
@@ -576,7 +578,7 @@ def _inline_expression_helpers(ctx, inl, node, fi, orig_calls):
             suffix = '__e%d' % inl.counter
             bound = {n.id for n in ast.walk(e) if isinstance(n, ast.Name) and isinstance(n.ctx, ast.Store)}
             mapping = {b: b + suffix for b in bound}
-            mapping.update({p: copy.deepcopy(a) for p, a in binding.items()})
+            mapping.update({p: clone(a) for p, a in binding.items()})
             out = _Rename(mapping).visit(e)
             inl.inlined.append((fi.qualname, h.qualname))
             return ast.copy_location(out, call)
@@ -644,9 +646,9 @@ def reconstruct(expr, fnode, depth=0, _seen=None):
                     return node
                 if isinstance(v, (ast.Yield, ast.YieldFrom, ast.Await)):
                     return node
-                return reconstruct(copy.deepcopy(v), fnode, depth + 1, _seen | {node.id})
+                return reconstruct(clone(v), fnode, depth + 1, _seen | {node.id})
             return node
-    out = R().visit(copy.deepcopy(expr))
+    out = R().visit(clone(expr))
     ast.fix_missing_locations(out)
     return out
 
@@ -676,7 +678,7 @@ def resolve_here(expr, depth=0, _skip=frozenset()):
     recursively.  A definition that mentions the name it defines (`row = f(row)`) is substituted once; the inner occurrence
     then denotes the previous binding and is left alone.  Needs parent links."""
     if depth > 6:
-        return copy.deepcopy(expr)
+        return clone(expr)
     anchor = expr
     while getattr(anchor, '_parent', None) is not None and not isinstance(anchor, ast.stmt):
         anchor = anchor._parent
@@ -705,7 +707,7 @@ def resolve_here(expr, depth=0, _skip=frozenset()):
 
     def res(node, anchor_stmt, skip, d):
         if d > 6:
-            return copy.deepcopy(node)
+            return clone(node)
 
         class R(ast.NodeTransformer):
             def visit_Name(self, n):
@@ -720,7 +722,7 @@ def resolve_here(expr, depth=0, _skip=frozenset()):
                         inner_skip = skip | ({n.id} if any(isinstance(x, ast.Name) and x.id == n.id for x in ast.walk(v)) else set())
                         return res(v, st, inner_skip, d + 1)
                 return n
-        out = R().visit(copy.deepcopy(node))
+        out = R().visit(clone(node))
         return out
     out = res(expr, anchor, set(_skip), depth)
     ast.fix_missing_locations(out)
